@@ -25,6 +25,7 @@ VARIABLES s, hist
 vars == <<s, hist>>
 
 ASSUME Acts \subseteq AllActs /\ StartNames \subseteq DOMAIN StartVec
+ASSUME PrintT(<<"META", ToJson([space |-> MFLSpace, keys |-> MFLKey])>>)
 
 Init == /\ \E n \in StartNames : s = StartVec[n]
         /\ hist = <<>>
@@ -52,7 +53,11 @@ DoRemoveBio       == "B:0" \in Acts /\ Step("B:0")
 DoAddMetabolite   == \E tok \in {"M:BASIC", "M:PSC"} : tok \in Acts /\ Step(tok)
 DoAddEffectComp   == "X:LIN" \in Acts /\ Step("X:LIN")
 
-Next == \/ DoSetAbsorption \/ DoSetElimination \/ DoSetPeripherals \/ DoAddPeripheral
+\* the same request performed through the MFL feature -> function table: the function stored under MFLKey[tok]
+\* is applied instead of the setter call it is supposed to be - same outcomes, same obligation
+DoRequestViaMFL   == \E tok \in MFLActs : tok \in Acts /\ Step(tok)
+
+Next == \/ DoRequestViaMFL \/ DoSetAbsorption \/ DoSetElimination \/ DoSetPeripherals \/ DoAddPeripheral
         \/ DoRemovePeripheral \/ DoSetTransits \/ DoSetTransitsNoDepot \/ DoAddLag \/ DoRemoveLag
         \/ DoAddBio \/ DoRemoveBio \/ DoAddMetabolite \/ DoAddEffectComp
 
